@@ -119,6 +119,13 @@ class Model:
             self.sigs[(cls, "cached_cls")] = [("scale", "float", 1.0), ("unit", "str", "GeV")]
             self.ret[(cls, "cached_cls")] = "float"
             src += ["    def hits(self) -> Hits: ...", "    def label(self) -> Label: ..."]
+            # model methods that merely carry the NAME of something a stream has (value, as_pandas, QMetaData)
+            src += [f"    def value({RECEIVER}, scale: float = 1.0, unit: str = 'GeV') -> float: ...", f"    def as_pandas({RECEIVER}, n: int = 3) -> float: ...", f"    def QMetaData({RECEIVER}, key: str, dflt: int = 0) -> int: ..."]
+            self.sigs[(cls, "value")] = [("scale", "float", 1.0), ("unit", "str", "GeV")]
+            self.sigs[(cls, "as_pandas")] = [("n", "int", 3)]
+            self.sigs[(cls, "QMetaData")] = [("key", "str", E), ("dflt", "int", 0)]
+            for mn in ("value", "as_pandas", "QMetaData"):
+                self.ret[(cls, mn)] = "float"
             self.sigs[(cls, "gen")] = [("x", "S", E), ("strict", "bool", False), ("level", "int", 3)]
             self.ret[(cls, "gen")] = "Any"
             for m in names:
